@@ -22,8 +22,8 @@ class C16(Prop):
     id = "C16"
     level = "fault_enumeration"
     tiers = {
-        "quick": [("timed", 40000), ("sweep", 2500), ("jitter", 15000)],
-        "thorough": [("timed", 900000), ("sweep", 60000), ("jitter", 400000)],
+        "quick": [("timed", 240000), ("sweep", 15000), ("jitter", 90000)],
+        "thorough": [("timed", 4800000), ("sweep", 300000), ("jitter", 1800000)],
     }
     rule_text = (
         "one case = (duration d, outcome in {value, Exception, BaseException, raises CancelledError, cancels itself, "
